@@ -320,6 +320,50 @@ mod te {
         val.done();
     }
 
+    /// the public string / key types as ordered, hashed and compared values: `InternalString` (a different backend under
+    /// `perf`) and `Key` must order, compare and hash like the `str` they hold, in every configuration
+    pub fn string_kinds(dump: &Option<(String, usize)>) {
+        use std::collections::{BTreeMap, BTreeSet, HashSet};
+        use toml_edit::{InternalString, Key};
+        let mut b = Blocks::new("te.strings.order", dump);
+        let strs = ["", "a", "b", "aa", "ab", "ba", "B", "alpha", "zeta", "é", "z", "a b", "a.b", "\u{10FFFF}", "aaaaaaaaaaaaaaaaaaaaaaaaaaaaaaaa", "aaaaaaaaaaaaaaaaaaaaaaaaaaaaaaab", "b\0", "1", "10", "9"];
+        for x in strs {
+            for y in strs {
+                let (ix, iy) = (InternalString::from(x), InternalString::from(y));
+                let (kx, ky) = (Key::new(x), Key::new(y));
+                let line = format!("{:?} {:?} is.cmp={:?} is.partial={:?} is.eq={} key.cmp={:?} key.eq={}", x, y, ix.cmp(&iy), ix.partial_cmp(&iy), ix == iy, kx.cmp(&ky), kx == ky);
+                if ix.cmp(&iy) != x.cmp(y) || ix.partial_cmp(&iy) != Some(x.cmp(y)) || (ix == iy) != (x == y) {
+                    println!("VIOL InternalString does not order / compare like the str it holds: {}", line);
+                }
+                if kx.cmp(&ky) != x.cmp(y) || (kx == ky) != (x == y) {
+                    println!("VIOL Key does not order / compare like the str it holds: {}", line);
+                }
+                b.item(&line);
+            }
+        }
+        let sorted: Vec<String> = {
+            let mut v: Vec<InternalString> = strs.iter().map(|s| InternalString::from(*s)).collect();
+            v.sort();
+            v.iter().map(|s| s.as_str().to_string()).collect()
+        };
+        let set: BTreeSet<InternalString> = strs.iter().map(|s| InternalString::from(*s)).collect();
+        let map: BTreeMap<InternalString, usize> = strs.iter().enumerate().map(|(i, s)| (InternalString::from(*s), i)).collect();
+        let hs: HashSet<InternalString> = strs.iter().map(|s| InternalString::from(*s)).collect();
+        let mut want: Vec<String> = strs.iter().map(|s| s.to_string()).collect();
+        want.sort();
+        if sorted != want || set.iter().map(|s| s.as_str().to_string()).collect::<Vec<_>>() != want {
+            println!("VIOL sorting InternalStrings gives {:?}, sorting the same strs gives {:?}", sorted, want);
+        }
+        for (i, s) in strs.iter().enumerate() {
+            // lookups through Borrow<str>
+            if map.get(*s) != Some(&i) || !set.contains(*s) || !hs.contains(*s) {
+                println!("VIOL a BTreeMap / BTreeSet / HashSet keyed by InternalString does not find {:?} through Borrow<str>", s);
+            }
+        }
+        b.item(&format!("{:?}", sorted));
+        b.done();
+    }
+
     /// API-built structures printed (needs only `display`)
     #[cfg(feature = "te_display")]
     pub fn build_kinds(dump: &Option<(String, usize)>) {
@@ -1011,6 +1055,8 @@ fn main() {
     te::parse_kinds(&docs, &dump);
     #[cfg(feature = "te_display")]
     te::build_kinds(&dump);
+    #[cfg(feature = "te")]
+    te::string_kinds(&dump);
     #[cfg(feature = "tm_parse")]
     tm::parse_kinds(&docs, &dump);
     #[cfg(all(feature = "tm_display", feature = "tm_parse"))]
